@@ -42,8 +42,37 @@ pub type IpVersion = crate::action::IpVersion;
 
 /// Verification hook (guarded by `--cfg btdht_verif`): re-exports of internal types so that an
 /// external harness can drive them directly, plus the virtual clock.
+/// Verification hook (guarded by `--cfg btdht_verif`): an in-order, thread-local event log.
+#[cfg(btdht_verif)]
+pub mod verif_log {
+    use std::cell::RefCell;
+
+    thread_local! {
+        static LOG: RefCell<Vec<String>> = const { RefCell::new(Vec::new()) };
+    }
+
+    /// Nanoseconds of the virtual clock since its base.
+    pub fn now_ns() -> u128 {
+        crate::time::verif_clock::elapsed_ns()
+    }
+
+    pub fn record(event: String) {
+        let line = format!("{} {}", now_ns(), event);
+        LOG.with(|l| l.borrow_mut().push(line));
+    }
+
+    pub fn drain() -> Vec<String> {
+        LOG.with(|l| std::mem::take(&mut *l.borrow_mut()))
+    }
+
+    pub fn hex(bytes: &[u8]) -> String {
+        bytes.iter().map(|b| format!("{b:02x}")).collect()
+    }
+}
+
 #[cfg(btdht_verif)]
 pub mod verif {
+    pub use crate::verif_log;
     pub use crate::bucket::Bucket;
     pub use crate::node::{Node, NodeHandle, NodeStatus};
     pub use crate::storage::AnnounceStorage;
